@@ -14,6 +14,8 @@ OkFixed(e) ==
   /\ Len(e.lookups) = 7
   /\ \A i \in 1..Len(e.lookups) : OkLookup(e.lookups[i], o)
   /\ e.calls = 0                         \* no zone data is consulted for fixed-offset names
+\* offsets outside +-24 h anywhere in the 64-bit range (logged wide in `ow`; `o` carries a stand-in 90000): UTC
+OkFixedBig(e) == (W(86400) \prec e.ow \/ e.ow \prec W(-86400)) /\ OkFixed(e)
 OkFixedName(e) ==
   LET r == NameToOffset(e.name) IN
   /\ e.ub = 0
@@ -22,7 +24,7 @@ OkFixedName(e) ==
               /\ e.tzname = (IF r.off = 0 THEN UTCName ELSE e.name))
   \* anything else goes to the zone data source (which serves nothing here) and fails with UTC
   /\ ~r.ok => (e.ok = 0 /\ e.off = 0 /\ e.tzname = UTCName)
-Allowed(e) == CASE e.e = "Fixed" -> OkFixed(e) [] e.e = "FixedName" -> OkFixedName(e) [] OTHER -> FALSE
+Allowed(e) == CASE e.e = "Fixed" -> OkFixed(e) [] e.e = "FixedBig" -> OkFixedBig(e) [] e.e = "FixedName" -> OkFixedName(e) [] OTHER -> FALSE
 Init == l = 1 /\ bad = 0
 Next == /\ l <= TraceLen
         /\ l' = l + 1
